@@ -29,6 +29,8 @@ pub enum Edge {
     Pie,
     Pbkw,
     Pke,
+    /// `LocalKey::from([u8; 32])`
+    FromArray,
 }
 
 fn edge_generic<V: Full + HasKey<K>, K: KeyType>(e: Edge, k: &Key<V, K>) -> Result<Key<V, K>, String>
@@ -81,6 +83,10 @@ where
 
 fn edge_local<V: Full>(e: Edge, k: &Key<V, Local>, ks: &keys::KeySet) -> Result<Key<V, Local>, String> {
     match e {
+        Edge::FromArray => {
+            let b: [u8; 32] = keys::key_bytes(k)[..].try_into().map_err(|_| "local key is not 32 bytes".to_string())?;
+            Ok(Key::<V, Local>::from(b))
+        }
         Edge::Pke => {
             let pair = &ks.pke[0];
             let s = pk::seal::<V>(&keys::key_bytes(k), &pair.1.bytes).map_err(|e| crate::payload::err_kind(&e).to_string())?;
@@ -107,6 +113,7 @@ fn edges_for(kk: KK, v1_quick: bool) -> Vec<Edge> {
     let mut e = GENERIC_EDGES.to_vec();
     match kk {
         KK::Local => {
+            e.push(Edge::FromArray);
             e.push(Edge::Pie);
             e.push(Edge::Pbkw);
             if !v1_quick {
@@ -210,7 +217,7 @@ fn graph<V: Full>(prop: &mut Property, ctx: &Ctx) {
         Sub::new(
             format!("{name}/graph"),
             n,
-            format!("BFS from every origin key ({n} origins: local, secret, public, PKE) over every edge sequence up to depth {depth} of the representation graph (clone, KeyText try_into, PASERK string parse, raw bytes, KeyText string, serde, PIE, PBKW, PKE); state = (kind, key bytes), invariant: bytes and behaviour equal the origin's in every state"),
+            format!("BFS from every origin key ({n} origins: local, secret, public, PKE) over every edge sequence up to depth {depth} of the representation graph (clone, KeyText try_into, PASERK string parse, raw bytes, KeyText string, serde, From<[u8;32]>, PIE, PBKW, PKE); state = (kind, key bytes), invariant: bytes and behaviour equal the origin's in every state"),
             move |idx, describe| {
                 let (kk, origin) = &origins[idx as usize];
                 let kk = *kk;
@@ -439,7 +446,8 @@ pub fn model(ver: u8, kk: KK, b: &[u8]) -> Verdict {
             // necessary conditions only (see DESIGN): anything that is not DER/PEM of an RSA key of the right size must be rejected
             use rsa::traits::PublicKeyParts;
             let want_bits = if matches!(kk, KK::PkePublic | KK::PkeSecret) { 4096 } else { 2048 };
-            let bits = match kk {
+            // the rsa crate itself can panic on structurally odd keys (prime == 1): a panic of the model's parser is "reject"
+            let bits = subject(|| match kk {
                 KK::Public | KK::PkePublic => {
                     use rsa::pkcs8::DecodePublicKey;
                     rsa::RsaPublicKey::from_public_key_der(b).ok().or_else(|| std::str::from_utf8(b).ok().and_then(|s| rsa::RsaPublicKey::from_public_key_pem(s).ok())).map(|k| k.n().bits())
@@ -448,7 +456,8 @@ pub fn model(ver: u8, kk: KK, b: &[u8]) -> Verdict {
                     use rsa::pkcs1::DecodeRsaPrivateKey;
                     rsa::RsaPrivateKey::from_pkcs1_der(b).ok().or_else(|| std::str::from_utf8(b).ok().and_then(|s| rsa::RsaPrivateKey::from_pkcs1_pem(s).ok())).map(|k| k.n().bits())
                 }
-            };
+            })
+            .unwrap_or(None);
             match bits {
                 None => Verdict::Reject,
                 Some(x) if x != want_bits => Verdict::Reject,
@@ -616,6 +625,37 @@ pub fn key_candidates(ver: u8, thorough: bool) -> Vec<(String, Vec<u8>)> {
             c.push(("secret: seed with another key's public half".into(), swapped));
         }
         _ => {
+            // structurally odd RSA keys (harness/data, generated once with openssl + a DER writer): DER and PEM forms
+            c.push(("crafted RSA private key p == q (DER)".into(), include_bytes!("../data/rsa2048_p_eq_q.der").to_vec()));
+            c.push(("crafted RSA private key p == q (PEM)".into(), include_bytes!("../data/rsa2048_p_eq_q.pem").to_vec()));
+            c.push(("crafted RSA private key prime1 == 1 (DER)".into(), include_bytes!("../data/rsa2048_prime_one.der").to_vec()));
+            c.push(("crafted RSA private key prime1 == 1 (PEM)".into(), include_bytes!("../data/rsa2048_prime_one.pem").to_vec()));
+            c.push(("crafted RSA private key wrong d and CRT values (DER)".into(), include_bytes!("../data/rsa2048_bad_d.der").to_vec()));
+            c.push(("crafted RSA private key wrong d and CRT values (PEM)".into(), include_bytes!("../data/rsa2048_bad_d.pem").to_vec()));
+            c.push(("crafted RSA public key e == 1 (DER)".into(), include_bytes!("../data/rsa2048_pub_e1.der").to_vec()));
+            c.push(("crafted RSA public key even e (DER)".into(), include_bytes!("../data/rsa2048_pub_e_even.der").to_vec()));
+            c.push(("crafted RSA public key even modulus (DER)".into(), include_bytes!("../data/rsa2048_pub_even_n.der").to_vec()));
+            c.push(("crafted RSA public key 65-bit e (DER)".into(), include_bytes!("../data/rsa2048_pub_huge_e.der").to_vec()));
+            c.push(("crafted RSA structure composite prime".into(), include_bytes!("../data/rsa_odd_composite_prime.der").to_vec()));
+            c.push(("crafted RSA structure d zero".into(), include_bytes!("../data/rsa_odd_d_zero.der").to_vec()));
+            c.push(("crafted RSA structure e zero".into(), include_bytes!("../data/rsa_odd_e_zero.der").to_vec()));
+            c.push(("crafted RSA structure n not pq".into(), include_bytes!("../data/rsa_odd_n_not_pq.der").to_vec()));
+            c.push(("crafted RSA structure n zero".into(), include_bytes!("../data/rsa_odd_n_zero.der").to_vec()));
+            c.push(("crafted RSA structure prime1 zero".into(), include_bytes!("../data/rsa_odd_prime1_zero.der").to_vec()));
+            c.push(("crafted RSA structure prime2 one".into(), include_bytes!("../data/rsa_odd_prime2_one.der").to_vec()));
+            c.push(("crafted RSA structure pub e gt n".into(), include_bytes!("../data/rsa_odd_pub_e_gt_n.der").to_vec()));
+            c.push(("crafted RSA structure pub e zero".into(), include_bytes!("../data/rsa_odd_pub_e_zero.der").to_vec()));
+            c.push(("crafted RSA structure pub n one".into(), include_bytes!("../data/rsa_odd_pub_n_one.der").to_vec()));
+            c.push(("crafted RSA structure pub n zero".into(), include_bytes!("../data/rsa_odd_pub_n_zero.der").to_vec()));
+            for i in c.len().saturating_sub(11)..c.len() {
+                // the same structures as PEM (both armour labels)
+                let (l, b) = c[i].clone();
+                let b64: String = crate::ops::b64(&b).replace('-', "+").replace('_', "/");
+                let pad = (4 - b64.len() % 4) % 4;
+                let body: String = format!("{b64}{}", "=".repeat(pad)).as_bytes().chunks(64).map(|ch| format!("{}\n", std::str::from_utf8(ch).unwrap())).collect();
+                let label = if l.contains("pub") { "PUBLIC KEY" } else { "RSA PRIVATE KEY" };
+                c.push((format!("{l} (PEM)"), format!("-----BEGIN {label}-----\n{body}-----END {label}-----\n").into_bytes()));
+            }
             // RSA public keys with crafted modulus sizes (no primes needed for an SPKI)
             use rsa::pkcs8::EncodePublicKey;
             for bits in [1024usize, 2047, 2048, 2049, 3072, 4095, 4096, 4097] {
